@@ -93,15 +93,30 @@ pub fn grid_event(rows: Vec<Dict>, rows_j: &J) -> J {
     let mut meta = Dict::new();
     meta.insert("m".into(), Value::Marker);
     meta.insert("n".into(), Value::make_int(1));
+    // the grid helpers (beyond the listed property): len / is_empty / indexing / iteration / is_err / make_err / make_empty
+    let dis = rows.first().and_then(|r| r.keys().next().cloned()).unwrap_or_else(|| "no rows \"here\"".to_string());
+    let mut errmeta = meta.clone();
+    match rows.len() % 3 {
+        0 => { errmeta.insert("err".into(), Value::Marker); }
+        1 => { errmeta.insert("err".into(), Value::make_str("not a marker")); }
+        _ => {}
+    }
     let r = guarded(|| {
         let g = Grid::make_from_dicts(rows.clone());
         let vg = Value::make_grid_from_dicts(rows.clone());
         let mg = Grid::make_from_dicts_with_meta(rows.clone(), meta.clone());
-        (alpha_grid(&g), alpha(&vg), alpha_grid(&mg))
+        let eg = Grid::make_from_dicts_with_meta(rows.clone(), errmeta.clone());
+        // compared through the projection: `==` is not reflexive for records holding a NaN
+        let indexed = (0..g.len()).all(|i| crate::absval::tags(&g[i]) == crate::absval::tags(&rows[i]))
+            && (&g).into_iter().map(crate::absval::tags).collect::<Vec<J>>() == rows.iter().map(crate::absval::tags).collect::<Vec<J>>();
+        let helpers = json!({"len":g.len(),"is_empty":g.is_empty(),"is_err":g.is_err(),"meta_is_err":mg.is_err(),"errmeta":crate::absval::tags(&errmeta),
+            "errmeta_is_err":eg.is_err(),"indexed":indexed,"dis":crate::absval::cps(&dis),"make_err":alpha_grid(&Grid::make_err(&dis)),
+            "make_err_is_err":Grid::make_err(&dis).is_err(),"make_empty":alpha_grid(&Grid::make_empty()),"default":alpha_grid(&Grid::default())});
+        (alpha_grid(&g), alpha(&vg), alpha_grid(&mg), helpers)
     });
     match r {
-        Ok((g, vg, mg)) => json!({"op":"kind.grid","rows":rows_j,"grid":g,"value_grid":vg,"meta_grid":mg,"meta":crate::absval::tags(&meta),"monitor":"ok"}),
-        Err(_) => json!({"op":"kind.grid","rows":rows_j,"grid":{"k":"null"},"value_grid":{"k":"null"},"meta_grid":{"k":"null"},"meta":[],"monitor":"panic"}),
+        Ok((g, vg, mg, h)) => json!({"op":"kind.grid","rows":rows_j,"grid":g,"value_grid":vg,"meta_grid":mg,"meta":crate::absval::tags(&meta),"monitor":"ok","helpers":[h]}),
+        Err(_) => json!({"op":"kind.grid","rows":rows_j,"grid":{"k":"null"},"value_grid":{"k":"null"},"meta_grid":{"k":"null"},"meta":[],"monitor":"panic","helpers":[]}),
     }
 }
 
